@@ -3,7 +3,7 @@
    (pdf, plain, html, odg, odf, e-mail, pptx, ppt, odp, xlsx, xls, ods, epub, rtf); `units c` is
    [(u.get_metadata().unit_number, u.get_text()) for u in c.iterate_units()], `full_text c` is c.get_full_text(). *)
 From Coq Require Import ZArith List Bool Sorted Permutation.
-From S2T Require Import Lib.PyStr C03.Lib C03.Model C03.Proofs C03.Extract C03.Docx C03.ProofsX C03.ProofsM C03.Sect C03.ProofsS C03.ProofsD C03.Odf C03.ProofsO.
+From S2T Require Import Lib.PyStr C03.Lib C03.Model C03.Proofs C03.Extract C03.Docx C03.ProofsX C03.ProofsM C03.Sect C03.ProofsS C03.ProofsD C03.Odf C03.ProofsO C03.Order C03.ProofsR.
 Import ListNotations.
 Open Scope Z_scope.
 
@@ -381,3 +381,53 @@ Theorem C03_ods_read_numbers :
   forall tables, unit_numbers (ods_units (read_ods_sheets tables)) = zseq 1 (List.length tables).
 Proof. exact read_ods_numbers. Qed.
 Print Assumptions C03_ods_read_numbers.
+
+(* ---------------------------------------------------------------- PPTX slide order, resolve_part_name, EPUB spine *)
+(* _compute_slide_order follows the p:sldIdLst order: the order of a concatenated list is the concatenation *)
+Theorem C03_pptx_slide_order_follows_sldIdLst :
+  forall rels a b, compute_slide_order rels (a ++ b) = compute_slide_order rels a ++ compute_slide_order rels b.
+Proof. exact slide_order_app. Qed.
+Print Assumptions C03_pptx_slide_order_follows_sldIdLst.
+
+(* ... and, with unique relationship ids, it does not depend on the order of the Relationship elements *)
+Theorem C03_pptx_slide_order_rel_order_irrelevant :
+  forall rels rels' ids, NoDup (map fst (rels_entries rels)) -> Permutation rels rels' ->
+    compute_slide_order rels ids = compute_slide_order rels' ids.
+Proof. exact slide_order_rel_order_irrelevant. Qed.
+Print Assumptions C03_pptx_slide_order_rel_order_irrelevant.
+
+(* resolve_part_name: an absolute target ignores the base directory *)
+Theorem C03_resolve_absolute_ignores_base :
+  forall b1 b2 target, startswith target [SLASH] = true -> resolve_part_name b1 target = resolve_part_name b2 target.
+Proof. exact resolve_absolute. Qed.
+Print Assumptions C03_resolve_absolute_ignores_base.
+
+(* PARTIAL: every segment of the resolved name is clean (non-empty, not "." / "..", no slash) when the base directory's
+   segments are; gap: "." / ".." segments of the BASE directory are passed through unchanged *)
+Theorem C03_resolve_segments_clean_partial :
+  forall base target, forallb clean_segment (filter nonempty (split_slash base)) = true ->
+    forallb clean_segment (resolve_segments base target) = true.
+Proof. exact resolve_segments_clean. Qed.
+Print Assumptions C03_resolve_segments_clean_partial.
+
+Example C03_resolve_hyp_satisfiable :
+  forallb clean_segment (filter nonempty (split_slash (s "OEBPS/text/"))) = true
+  /\ resolve_part_name (s "OEBPS/text/") (s "../img/./a.png") = s "OEBPS/img/a.png".
+Proof. vm_compute. split; reflexivity. Qed.
+Print Assumptions C03_resolve_hyp_satisfiable.
+
+(* read_epub: chapter numbers strictly increasing; a chapter exists exactly for the spine positions whose item passes
+   the gate of _extract_chapter, numbered by that position (itemrefs with linear="no" are ordinary positions) *)
+Theorem C03_epub_read_numbers :
+  forall members ct opf_dir manifest spine,
+    wf_source (CEpub (read_epub_chapters members ct opf_dir manifest spine)) = true.
+Proof. exact read_epub_chapters_wf. Qed.
+Print Assumptions C03_epub_read_numbers.
+
+Theorem C03_epub_chapter_of_spine_position :
+  forall members ct opf_dir manifest spine c,
+    In c (read_epub_chapters members ct opf_dir manifest spine) <->
+    exists i item_id, ch_number c = Z.of_nat i + 1 /\ nth_error spine i = Some item_id
+                      /\ chapter_of members ct opf_dir manifest item_id = Some (ch_text c).
+Proof. exact read_epub_chapters_positions. Qed.
+Print Assumptions C03_epub_chapter_of_spine_position.
